@@ -7,7 +7,7 @@
    ended link a call blocked in its result select returns after at most four steps of its own
    waiter and itself — no step of any handler, peer, reader or transport is needed — with a non-nil
    error unless its waiter already holds a genuine error-free response. *)
-From Verif Require Import Base Link LinkProofs LinkInv16 LinkInvB.
+From Verif Require Import Base Link LinkProofs LinkInv16 LinkInvB LinkInvT LinkProgress.
 
 Theorem read_failure_ends_link :
   forall calls s n,
@@ -74,3 +74,34 @@ Theorem inflight_calls_return_error :
                       (e = None -> exists x, tget (threads s) (TWaiter i) = Some (WWoke (WResp x None))).
 Proof. exact inflight_call_returns_lemma. Qed.
 Print Assumptions inflight_calls_return_error.
+
+(* the general statement: on an ended link EVERY started call returns — wherever it is: before its
+   request write, blocked in its select, holding a result, inside the recover path — within six
+   steps of its own waiter and itself, with a non-nil error unless a genuine error-free response was
+   already in hand; nothing else (handler, peer, reader, transport) has to move *)
+Theorem every_started_call_returns :
+  forall calls s i st,
+    lreachable fixed calls s -> bclosed s = true -> tget (threads s) (TCall i) = Some st ->
+    exists cs s' v e, length cs <= 6 /\ own_steps i cs /\ lrun fixed calls s cs = Some s' /\
+                      tget (threads s') (TCall i) = Some (CReturned v e) /\
+                      (e = None -> in_hand s i).
+Proof. exact started_call_returns_lemma. Qed.
+Print Assumptions every_started_call_returns.
+
+(* ... and a call made afterwards fails in its first step, registering nothing and writing nothing *)
+Theorem call_after_end_fails :
+  forall calls s i cs0,
+    lreachable fixed calls s -> bclosed s = true -> tget (threads s) (TCall i) = None -> nth_error calls i = Some cs0 ->
+    exists s1, lstep fixed calls s (Env (EStart i)) 0 = Some s1 /\
+               exists e, tget (threads s1) (TCall i) = Some (SetErrMid e (KReturn e)) /\ tbl s1 = [] /\ evs s1 = evs s.
+Proof. exact call_after_end_fails_lemma. Qed.
+Print Assumptions call_after_end_fails.
+
+(* non-vacuity: a call that has not written its request yet when the response reader's read fails *)
+Example started_call_on_ended_link :
+  exists s, lreachable fixed [mkCall 1 2 false 10] s /\ bclosed s = true /\
+            tget (threads s) (TCall 0) = Some (CRegistered 0).
+Proof.
+  eexists. split; [exists [(Run TSetup, 0); (Env (EStart 0), 0); (Env (EFailReadRes 3%N), 0)]; vm_compute; reflexivity|].
+  split; reflexivity.
+Qed.
